@@ -312,9 +312,29 @@ def build_instances(tier):
     return inst
 
 
+HANDSHAKES = {'quick': (('default', 'init+new@B'), ('pfs', 'init+rekey@B'), ('pfs', 'init+new@A'), ('default', 'init+ike@B+rekey@B+new@A'),
+                        ('pfs', 'init+cross@newxnew'), ('ah_tunnel', 'init+ike@A+new@A+new@B')),
+              'thorough': None}
+
+
+def handshake_instances(tier):
+    """which nonces, SPIs, g^ir and SK_d the REAL exchanges feed into the derivation: the two-endpoint symbolic handshake of C01 with the RFC
+    oracles only (keys installed = RFC 7296 2.17 slices over the EXCHANGE initiator's/responder's nonces; keyrings = 2.14 / 2.18)"""
+    from . import c01
+    combos = HANDSHAKES[tier]
+    if combos is None:
+        combos = [(su, sc) for su in ('default', 'subset', 'pfs', 'pfs384', 'ah_tunnel', 'child_dh_retry') for sc in c01.SCENARIOS
+                  if 'cross' not in sc or su in ('default', 'pfs', 'ah_tunnel')]
+    return [Instance(f'handshake {su} {sc}', c01.h_scenario, (su, sc, True), native=common.native_of(c01.h_scenario), engine_kw={'max_ticks': 10 ** 7},
+                     must_reach=[('completed', lambda o: o[0] == 'scenario' and len(o) == 2)]) for su, sc in combos]
+
+
 def replay_file(path):
     """native differential with the real HMAC on the concrete witness"""
     global MODS
+    if json.load(open(path))['instance'].startswith('handshake'):
+        from . import c01
+        return common.generic_replay_file(path, lambda: handshake_instances('thorough') + handshake_instances('quick'), lambda: c01._load(False))
     MODS = common.load_repo(shim=False)
     import hmac
     m, c, ik = MODS['message'], MODS['crypto'], MODS['ikesa']
@@ -372,9 +392,9 @@ def replay_file(path):
 
 def main(tier, seed):
     global MODS
-    MODS = common.load_repo()
+    from . import c01
     from symx import shims
-    shims.install_hash_level(MODS)
+    MODS = c01._load(True)
     c, ik = MODS['crypto'], MODS['ikesa']
     chk = Check('C04', tier, seed,
                 functions=common.src_hash(c.Prf.prf, c.Prf.prfplus, ik.IkeSa.generate_ike_sa_key_material,
@@ -387,10 +407,15 @@ def main(tier, seed):
                                     'initial and rekey (old SK_d), both roles; quick: 4 suites, thorough: 3 PRF x 3 INTEG x 2 key lengths',
                         'CHILD keys': 'ESP and AH, with and without a fresh DH secret',
                         'outside': 'hash / AES / modular exponentiation / EC arithmetic (C code in cryptography/OpenSSL); the width of the shared secret returned '
-                                   'by the library exchange() (assumed fixed-width); which nonces/secret the handshake passes in (C01)'},
+                                   'by the library exchange() (assumed fixed-width)',
+                        'handshake': 'the real two-endpoint exchanges with every nonce, SPI, DH value symbolic (quick 6, thorough all C01 scenarios of 6 suites): the '
+                                     'installed CHILD_SA keys are the 2.17 slices over [g^ir(new)] | Ni | Nr of the EXCHANGE initiator/responder and that IKE_SA\'s SK_d; '
+                                     'IKE keyrings are 2.14 / 2.18 over the exchange\'s nonces, SPIs, g^ir of the KE values on the wire and the old SK_d'},
                 assumptions=['the HASH function (SHA-1/SHA-256/SHA-512) is an uninterpreted function with functional consistency; HMAC is its RFC 2104 '
                              'construction, on the reference side transcribed in symx/shims.hmac_rfc2104, so code that builds HMAC itself from hashlib is comparable',
                              'the reference transcribes RFC 7296 2.13, 2.14, 2.17, 2.18 independently of the code under test'],
                 stubs=['crypto.HMAC (UF)', 'ikesa.unpack', 'SymDict digest tables'])
+    chk.run(handshake_instances(tier))          # HMAC as an uninterpreted function, both endpoints in one path
+    shims.install_hash_level(MODS)              # from here on: HMAC = RFC 2104 over an uninterpreted hash
     chk.run(build_instances(tier))
     return chk.finish(replay=lambda v: common.native_replay_subprocess('C04', v))
